@@ -1,5 +1,6 @@
 import Irismod.Props.C13_Service
 import Irismod.Props.C08
+import Irismod.Proofs.ServiceMonitor
 open Irismod Irismod.Service Irismod.Props.C13S
 #print axioms wf_run
 #print axioms wf_reachable
@@ -19,3 +20,15 @@ open Irismod Irismod.Service Irismod.Props.C13S
 #print axioms end_block_leaves_only_future_entries
 -- non-vacuity: the C08 witness state (a context waiting in the new-batch queue) goes through a block: a request is issued, the entry moves to the expired-batch queue
 #eval s!"nonvacuous {let s := endBlock Irismod.Props.C08.w5; s.newQ.isEmpty && s.expQ == [(22, "c")] && s.active.length == 1}"
+-- monitor soundness (Proofs/ServiceMonitor*.lean): every clause `drv-service monitor C13` evaluates holds on every model step
+#print axioms Irismod.Proofs.ServiceMonitor.monitor_sound
+#print axioms Irismod.Proofs.ServiceMonitor.line_inv
+#print axioms Irismod.Proofs.ServiceMonitor.line_inv_reset
+#print axioms Irismod.Proofs.ServiceMonitor.c13_check_sound
+#print axioms Irismod.Proofs.ServiceMonitor.c13_state_sound
+#print axioms Irismod.Proofs.ServiceMonitor.c13_next_sound
+#print axioms Irismod.Proofs.ServiceMonitor.sinv_apply
+#print axioms Irismod.Proofs.ServiceMonitor.awaits_apply
+#print axioms Irismod.Proofs.ServiceMonitor.ctxsNodup_apply
+#print axioms Irismod.Proofs.ServiceMonitor.markersNodup_apply
+#eval s!"nonvacuous monitor {Irismod.Proofs.ServiceMonitor.demoMonitor}"
